@@ -225,7 +225,10 @@ def check_property(prop, tier, seed):
         "wall_s": round(wall, 2),
         "violations": len(violations),
     }
-    os.makedirs(os.path.join(ROOT, "evidence"), exist_ok=True)
+    ev_dir = os.path.join(ROOT, "evidence")
+    if os.environ.get("PYVC_REPO_SRC") and os.path.abspath(os.environ["PYVC_REPO_SRC"]) != "/repo/src":
+        ev_dir = os.path.join(ROOT, "out", "evidence-of-scratch-trees")  # mutation / seed runs never touch evidence/
+    os.makedirs(ev_dir, exist_ok=True)
     try:
         import jsonschema
 
@@ -235,7 +238,7 @@ def check_property(prop, tier, seed):
     except Exception as e:  # noqa: BLE001
         print(f"CHECKER-ERROR: evidence does not validate: {e}")
         errors.append({"where": "evidence", "trace": str(e)})
-    with open(os.path.join(ROOT, "evidence", f"{prop}.json"), "w") as fh:
+    with open(os.path.join(ev_dir, f"{prop}.json"), "w") as fh:
         json.dump(ev, fh, indent=1)
     print(f"{prop} [{tier}]: {discharged}/{obligations} obligations discharged over {len(jobs)} contract instances of {len(functions)} functions; solver {solver_s:.1f}s, wall {wall:.1f}s; undecided {len(undecided)}, violations {len(violations)}, known findings {len(printed)}")
     if violations:
